@@ -238,6 +238,7 @@ Section NodeLive.
      (in any order among themselves) leaves the node with exactly round hb+1 appended. *)
   Theorem node_round_completes s hb rho ps :
     ready s -> head s = hb -> rho <> b_round hb ->
+    b_round hb + 1 <= current_round (s_now s) (c_period C) (c_genesis C) ->   (* the round's time has come *)
     let own := own_psig (g_poly (s_grp s)) (b_round hb + 1) (b_sig hb) in
     vpart (g_poly (s_grp s)) (b_round hb + 1) (b_sig hb) own = true ->
     (forall sg, In sg ps -> good_partial s hb sg) -> NoDup (map idx_of ps) ->
@@ -245,11 +246,13 @@ Section NodeLive.
     g_thr (s_grp s) <= 1 + Z.of_nat (length ps) ->
     produced s (deliver (fst (step s (ETick rho None))) hb ps) hb.
   Proof.
-    intros [Hrun [Hca Hpe]] Hhead Hrho own Hvown Hgood Hnd Hdiff Hthr.
+    intros [Hrun [Hca Hpe]] Hhead Hrho Hclock own Hvown Hgood Hnd Hdiff Hthr.
     cbn [Node.step]. rewrite Hrun. cbn [negb].
-    unfold Node.emit_on. cbn [s_grp]. rewrite Hhead.
+    unfold Node.emit_on, sign_target, may_sign. cbn [s_grp s_now]. rewrite Hhead.
     destruct (Z.eqb_spec rho (b_round hb)) as [|_]; [contradiction|].
-    fold own.
+    replace (b_round hb + 1 <=? current_round (s_now s) (c_period C) (c_genesis C)) with true
+      by (symmetry; apply Z.leb_le; exact Hclock).
+    cbn [negb]. fold own.
     set (s0 := mkS (s_now s) (s_chain s) (s_cache s) rho (s_timers s) (s_grp s) (s_pending s) true).
     destruct (Node.agg_partial C idx_of recov vrec s0 (b_round hb + 1) (b_sig hb) own) as [s1 o1] eqn:E.
     assert (Hstep : collecting s s1 hb [(idx_of own, own)] \/ produced s s1 hb).
@@ -276,24 +279,41 @@ Section NodeRejoin.
   Variable own_psig : Z -> Z -> Z -> Z.
   Notation step := (step C idx_of vpart recov vrec own_psig).
 
-  (* every tick handled by a running node re-broadcasts a partial on top of the stored head, and
-     a gap between the head and the ticked round additionally triggers a sync with the group *)
+  (* every tick handled by a running node re-broadcasts a partial on top of the stored head -- as
+     soon as that round's time has come on the node's clock -- and a gap between the head and the
+     ticked round triggers a sync with the group in any case *)
   Theorem tick_rebroadcasts s rho sync :
     s_running s = true ->
-    exists p sg o', snd (step s (ETick rho sync)) = OEmit (emit_round rho (head s)) p sg (s_now s) :: o' /\
-      (b_round (head s) + 1 < rho -> In (OSyncReq rho) o').
+    (emit_round rho (head s) <= current_round (s_now s) (c_period C) (c_genesis C) ->
+     exists p sg o', snd (step s (ETick rho sync)) = OEmit (emit_round rho (head s)) p sg (s_now s) :: o') /\
+    (b_round (head s) + 1 < rho -> In (OSyncReq rho) (snd (step s (ETick rho sync)))).
   Proof.
     intros Hrun. cbn [Node.step]. rewrite Hrun. cbn [negb].
     destruct (Node.emit_on _ _ _ _ _ _ _ _) as [s1 o1] eqn:E1.
-    destruct (emit_on_spec C idx_of recov vrec own_psig _ _ _ _ _ E1) as [p [sg [o' [Eo _]]]].
-    cbn [s_now] in Eo. unfold head in Eo at 1. cbn [s_chain] in Eo. fold (head s) in Eo.
-    destruct (Z.ltb_spec (b_round (head s) + 1) rho).
-    - destruct (Node.do_sync _ _ _ _ _) as [s2 o2] eqn:E2. cbn [snd]. subst o1.
-      exists p, sg, (o' ++ o2). split; [reflexivity|]. intros _. apply in_or_app. right.
-      unfold Node.do_sync in E2. destruct sync as [bs|].
-      + destruct (Node.try_node _ _ _ _ _) as [s3 o3]. inversion E2; subst. left; reflexivity.
-      + inversion E2; subst. left; reflexivity.
-    - cbn [snd]. subst o1. exists p, sg, o'. split; [reflexivity|]. intros; lia.
+    assert (Hsync : b_round (head s) + 1 < rho ->
+                    forall s2 o2, Node.do_sync C vrec s1 rho sync = (s2, o2) -> In (OSyncReq rho) o2).
+    { intros _ s2 o2 E2. unfold Node.do_sync in E2. destruct sync as [bs|].
+      - destruct (Node.try_node _ _ _ _ _) as [s3 o3]. inversion E2; subst. left; reflexivity.
+      - inversion E2; subst. left; reflexivity. }
+    split.
+    - intros Hr. pose proof E1 as Hsh. apply emit_on_shape in Hsh.
+      destruct Hsh as [[_ [_ Hno]]|[r [p [o1' [Et [_ [_ ->]]]]]]].
+      + exfalso. unfold may_sign in Hno. cbn [s_now] in Hno.
+        assert (fst (sign_target rho (head s)) = emit_round rho (head s))
+          by (unfold sign_target, emit_round; destruct (rho =? b_round (head s)); reflexivity).
+        unfold head in H at 1. cbn [s_chain] in H. fold (head s) in H.
+        unfold head in Hno at 1. cbn [s_chain] in Hno. fold (head s) in Hno.
+        rewrite H in Hno. apply Z.leb_gt in Hno. lia.
+      + assert (r = emit_round rho (head s)).
+        { unfold head in Et at 1. cbn [s_chain] in Et. fold (head s) in Et.
+          unfold sign_target in Et. unfold emit_round. destruct (rho =? b_round (head s)); inversion Et; reflexivity. }
+        subst r. cbn [s_now].
+        destruct (b_round (head s) + 1 <? rho).
+        * destruct (Node.do_sync _ _ _ _ _) as [s2 o2]. cbn [snd]. do 3 eexists. reflexivity.
+        * cbn [snd]. do 3 eexists. reflexivity.
+    - intros Hgap. destruct (Z.ltb_spec (b_round (head s) + 1) rho); [|lia].
+      destruct (Node.do_sync _ _ _ _ _) as [s2 o2] eqn:E2. cbn [snd].
+      apply in_or_app. right. eapply Hsync; eauto.
   Qed.
 
   (* a stream of beacons each of which verifies and is the stack-acceptable successor of the
